@@ -1313,7 +1313,22 @@ def h_check(h):
 
 def h_step(h, op):
     name = op[0]
+    if name == "closelistener":
+        # the server application stops listening; the connections it has
+        # accepted go on
+        # (not while a connection request is on its way: a CONNECT that finds
+        # nothing bound at its destination address gets no answer from this
+        # stack, which no listed property speaks about)
+        if not getattr(h, "listener_closed", False) and \
+                not any(hc.state == "pending" for hc in h.conns):
+            h.listener_closed = True
+            srv = h.srv
+            h.boxes.append(h.pair.call(srv.close, "close-listener"))
+            h_progress(h)
+        return
     if name == "open":
+        if getattr(h, "listener_closed", False):
+            return
         h_open(h, bool(op[1]))
     elif name == "x":
         h_xfer(h, op[1])
@@ -1454,6 +1469,14 @@ def history_case(draw, max_ops):
             later.append(["close", k, far, 1])
     while later and draw(st.booleans()):
         ops.append(later.pop(0))
+    if draw(st.integers(0, 2)) == 0:
+        # the server application stops listening at some point behind the
+        # last connection set-up; the connections it accepted live on
+        last_open = max(i for i, o in enumerate(ops) if o[0] == "open")
+        at = draw(st.integers(last_open + 1, len(ops)))
+        ops.insert(at, ["closelistener"])
+        for _ in range(draw(st.integers(1, 3))):
+            talk(draw(st.integers(0, max(0, nopen - 1))))
     return {"miu": [draw(miu_st()), draw(miu_st())],
             "agf": [draw(st.booleans()), draw(st.booleans())],
             "rw": [draw(st.sampled_from([1, 1, 2, 3, 15])) for _ in (0, 1)],
@@ -1465,7 +1488,7 @@ def history_case(draw, max_ops):
 
 H_ALPHABET = [["open", 1], ["close", -1, "c", 1], ["close", 0, "s", 1],
               ["send", -1, "c", 5, 1], ["send", -1, "s", 5, 1],
-              ["reader", -1, "s"], ["x", "a"], ["x", "b"]]
+              ["reader", -1, "s"], ["x", "a"], ["x", "b"], ["closelistener"]]
 
 
 def enum_history(tier, seed):
